@@ -187,9 +187,34 @@ func (x *executor) sprintf(m *machine, fr *frame, in ssa.Instruction, key string
 	c := x.c
 	// args[0] is the format string (for Sprintf), args[last] is the varargs slice: not decomposed.
 	// Result is an arbitrary string, deterministic in the call site's visible scalar arguments.
+	if key == "fmt.Sprintf" && len(args) == 2 && args[1].t != nil {
+		// a constant number of arguments: the result is a deterministic function of the format and the
+		// (interface-wrapped) argument values, read from the varargs array at the call
+		va := args[1].t
+		if n, ok := numeralValue(c.slLen(va)); ok && n.IsInt64() && n.Int64() >= 0 && n.Int64() <= 6 {
+			et := types.NewInterfaceType(nil, nil)
+			arr := mkSelect(c.arrOf(m.st, et), c.slRef(va))
+			ts := []*T{c.termOf(args[0])}
+			for k := int64(0); k < n.Int64(); k++ {
+				ts = append(ts, mkSelect(arr, c.ix(c.slOff(va), c.I(k))))
+			}
+			return c.sprintfTerm(ts)
+		}
+	}
 	r := c.d.fresh("sprintf", "Str")
 	m.st.assume(x.valueWF(r, types.Typ[types.String]))
 	return r
+}
+
+// sprintfTerm: sprintf_n(format, a1..an) as an uninterpreted function over interface values
+func (c *ctx) sprintfTerm(ts []*T) *T {
+	name := fmt.Sprintf("sprintf_%d", len(ts)-1)
+	sorts := []string{"Str"}
+	for range ts[1:] {
+		sorts = append(sorts, "Iface")
+	}
+	c.d.fun(name, sorts, "Str")
+	return app(name, "Str", ts...)
 }
 
 // builtinSpec: contract-level helper functions that need executor knowledge
